@@ -7,7 +7,7 @@ use serde_json::{json, Value};
 pub fn run_part(ctx: &mut Ctx, which: &str) {
     let thorough = ctx.tier.thorough();
     let mut part = Part::new(
-        &format!("E5_shuttle_{}", which),
+        &format!("E5_shuttle_{}", which.replace(',', "+")),
         &format!("controlled-scheduler exploration (shuttle engine, own exhaustive scheduler with iterative preemption bounding: all schedules with 0, then <= 1, ... then <= {} preemptions{}) of an instrumented copy of the library sources in which every std::sync / std::thread / thread_local! / lazy_static! / OnceLock use is shuttle's: 2-3 threads sharing freshly decoded key objects; each thread's result must equal what the same call produces alone, signatures verify, salts differ", if thorough { 3 } else { 2 }, if thorough { ", then shuttle's unbounded depth-first search under a cap" } else { "" }),
     );
     let bin = std::env::var("FALCON_MC_E5_BIN").unwrap_or_default();
@@ -19,7 +19,7 @@ pub fn run_part(ctx: &mut Ctx, which: &str) {
         ctx.add_part(part);
         return;
     }
-    let out = std::process::Command::new(&bin).arg(which).env("E5_MAX_PREEMPTIONS", if thorough { "3" } else { "2" }).env("E5_UNBOUNDED", if thorough { "1" } else { "0" }).output();
+    let out = std::process::Command::new(&bin).arg(which).env("E5_MAX_PREEMPTIONS", if thorough { "3" } else { "2" }).env("E5_UNBOUNDED", if thorough { "1" } else { "0" }).env("E5_TIME_BUDGET_S", if thorough { "900" } else { "150" }).output();
     let out = match out {
         Ok(o) => o,
         Err(e) => {
@@ -42,13 +42,15 @@ pub fn run_part(ctx: &mut Ctx, which: &str) {
         }
         seen += 1;
         let prog = v.get("program").and_then(|x| x.as_str()).unwrap_or("?").to_string();
+        // `which` may list several programs (one set-up for all of them); failures are keyed by the program's own key
+        let pkey = v.get("key").and_then(|x| x.as_str()).unwrap_or(which).to_string();
         let n = v.get("schedules").and_then(|x| x.as_u64()).unwrap_or(0);
         part.states += n;
         part.transitions += n;
         part.validated += n;
         part.outcome(format!("{}: {} schedules", prog, n));
         if v.get("capped").and_then(|x| x.as_bool()) == Some(true) {
-            ctx.cap(&format!("E5: schedule cap reached for '{}' ({} schedules explored)", prog, n));
+            ctx.cap(&format!("E5: schedule cap or wall-clock budget reached for '{}' ({} schedules explored, fewest preemptions first)", prog, n));
         }
         if let Some(pb) = v.get("per_preemption_count") {
             part.set(&format!("schedules_by_preemption_count[{}]", prog), pb.clone());
@@ -57,20 +59,36 @@ pub fn run_part(ctx: &mut Ctx, which: &str) {
             ctx.cap(&format!("E5: '{}' has executions with more than 4096 scheduling points; deviations are explored at the first 4096 only", prog));
         }
         if let Some(f) = v.get("failure").and_then(|x| x.as_str()) {
+            if prog.starts_with("set-up") {
+                // the single-threaded preparation itself (key generations, decodes, signatures in one process) failed
+                // inside the library: that is a finding about the library, not about schedules; there is nothing to replay
+                ctx.violation(
+                    format!("e5:{}:set-up", which),
+                    format!("the single-threaded set-up of the controlled-scheduler programs (Falcon-512 and Falcon-1024 key generation, decoding of the keys just encoded, three signatures, all in one process) fails inside the library: {}", f),
+                    json!({"kind":"e5-setup","which":which}),
+                );
+                continue;
+            }
             let prefix = v.get("prefix").and_then(|x| x.as_str()).unwrap_or("").to_string();
             // before trusting the failure: replay the recorded choice prefix twice, both must fail the same way
             let again = |_: u32| -> Option<String> {
-                let o = std::process::Command::new(&bin).arg("replay").arg(which).arg(&prefix).env("E5_MAX_PREEMPTIONS", "0").output().ok()?;
+                let o = std::process::Command::new(&bin).arg("replay").arg(&pkey).arg(&prefix).env("E5_MAX_PREEMPTIONS", "0").output().ok()?;
                 String::from_utf8_lossy(&o.stdout).lines().filter_map(|l| serde_json::from_str::<Value>(l).ok()).filter(|v| v.get("replayed").is_some()).filter_map(|v| v.get("failure").and_then(|x| x.as_str()).map(|s| s.to_string())).next()
             };
             let (r1, r2) = (again(1), again(2));
             if r1.is_none() || r1 != r2 {
+                if ctx.has_violations() {
+                    // other parts already report violations on this tree: do not let an unreplayable schedule turn the run
+                    // into a machinery failure that hides them
+                    ctx.cap(&format!("E5: a failing schedule of '{}' did not replay deterministically ({:?} / {:?}); not reported, other violations stand", prog, r1, r2));
+                    continue;
+                }
                 crate::ctx::machinery_error(&format!("E5: the failing schedule of '{}' does not replay deterministically ({:?} / {:?})", prog, r1, r2));
             }
             ctx.violation(
-                format!("e5:{}:{}", which, f.split(" (schedule").next().unwrap_or(f)),
+                format!("e5:{}:{}", pkey, f.split(" (schedule").next().unwrap_or(f)),
                 format!("under the controlled scheduler, program '{}' fails after {} schedules: {} (choice prefix {})", prog, n, f, prefix),
-                json!({"kind":"e5","which":which,"prefix":prefix}),
+                json!({"kind":"e5","which":pkey,"prefix":prefix}),
             );
         }
     }
@@ -87,6 +105,17 @@ pub fn replay(case: &Value) -> Result<Option<String>, String> {
         return Err("E5 driver not built (run through ./vf replay)".into());
     }
     let which = case.get("which").and_then(|x| x.as_str()).ok_or("which")?;
+    if case.get("kind").and_then(|x| x.as_str()) == Some("e5-setup") {
+        let out = std::process::Command::new(&bin).arg(which).env("E5_MAX_PREEMPTIONS", "0").output().map_err(|e| e.to_string())?;
+        for line in String::from_utf8_lossy(&out.stdout).lines() {
+            if let Ok(v) = serde_json::from_str::<Value>(line) {
+                if v.get("program").and_then(|x| x.as_str()).map(|p| p.starts_with("set-up")).unwrap_or(false) {
+                    return Ok(v.get("failure").and_then(|x| x.as_str()).map(|f| format!("the set-up fails: {}", f)));
+                }
+            }
+        }
+        return Ok(None);
+    }
     let prefix = case.get("prefix").and_then(|x| x.as_str()).ok_or("prefix")?;
     let out = std::process::Command::new(&bin).arg("replay").arg(which).arg(prefix).output().map_err(|e| e.to_string())?;
     for line in String::from_utf8_lossy(&out.stdout).lines() {
